@@ -159,8 +159,15 @@ def finish(prop, modname, mod, tier, seed, cases, results, not_run, t0, args, se
         for kf in r["known"]:
             known.append({"case": r["case"], **kf})
         if r.get("sample") and len(samples) < 6 and (len(samples) < 2 or r["idx"] % 97 == 0):
-            samples.append({"case": lab, "cfg": cfg, "definition": r["case"].get("text") or r["case"].get("T"),
-                            "paths": r["paths"], **r["sample"]})
+            text = r["case"].get("text")
+            if text is None and r["case"].get("T") is not None:
+                try:
+                    from vf import refmodel
+                    text = refmodel.render(r["case"]["T"])
+                except Exception:  # noqa: BLE001
+                    text = str(r["case"]["T"])[:300]
+            samples.append({"case": lab, "cfg": cfg, "definition": text, "paths_explored": r["paths"],
+                            "inputs": "symbolic (every byte / value within the stated bounds)", **r["sample"]})
     heavy = sorted(((r.get("wall_s", 0), r.get("paths", 0), r["case"].get("label"), str(r["case"].get("cfg"))) for r in results if "case" in r),
                    reverse=True)[:8]
     # ---- confirm counterexamples on the un-instrumented library
